@@ -71,33 +71,27 @@ Expected(lvl, tab, upm, x) ==
 
 (***************************************************************************)
 (* Attribution of a rejected observation to the known deviations (findings)*)
-(* that would admit it: the first of the labels below under which it is    *)
-(* accepted, "" if none.  Base sets: one deviation of RewritesCore, "case" *)
-(* (mixed-case canonical names read verbatim), "all" of them; "fwd" and    *)
-(* "err" are the two deviations of the pipeline.                           *)
+(* that explain it: a smallest set S of deviations under which it is       *)
+(* accepted.  S ranges over the three deviations of RewritesCore ("tie",   *)
+(* "exact", "late"), "case" (canonical names written in another case are   *)
+(* read verbatim), and the two deviations of the pipeline, "fwd" and "err".*)
+(* bt is the table of admissible sets for every choice of the first four,  *)
+(* evaluated once per rejected observation.                                *)
 (***************************************************************************)
-BaseOuts(tab, x, b) ==
+AllDevs == Deviations \cup {"case", "fwd", "err"}
+BaseTable(tab, x) ==
     LET mixed(i) == tab[i].mc IN
-    CASE b = "strict" -> Outcomes(tab, x.h, x.qt)
-      [] b = "case"   -> OutcomesVerbatim(tab, mixed, x.h, x.qt, {})
-      [] b = "all"    -> OutcomesL(tab, x.h, x.qt, Deviations) \cup OutcomesVerbatim(tab, mixed, x.h, x.qt, Deviations)
-      [] OTHER        -> OutcomesL(tab, x.h, x.qt, {b})
-Labels == <<[n |-> "fwd", b |-> "strict", f |-> TRUE, e |-> FALSE], [n |-> "err", b |-> "strict", f |-> FALSE, e |-> TRUE],
-            [n |-> "tie", b |-> "tie", f |-> FALSE, e |-> FALSE], [n |-> "exact", b |-> "exact", f |-> FALSE, e |-> FALSE],
-            [n |-> "late", b |-> "late", f |-> FALSE, e |-> FALSE], [n |-> "case", b |-> "case", f |-> FALSE, e |-> FALSE],
-            [n |-> "fwd+err", b |-> "strict", f |-> TRUE, e |-> TRUE],
-            [n |-> "tie+fwd", b |-> "tie", f |-> TRUE, e |-> FALSE], [n |-> "exact+fwd", b |-> "exact", f |-> TRUE, e |-> FALSE],
-            [n |-> "late+fwd", b |-> "late", f |-> TRUE, e |-> FALSE], [n |-> "case+fwd", b |-> "case", f |-> TRUE, e |-> FALSE],
-            [n |-> "case+err", b |-> "case", f |-> FALSE, e |-> TRUE], [n |-> "all", b |-> "all", f |-> TRUE, e |-> TRUE]>>
-Under(lvl, tab, upm, x, lb) ==
-    LET outs == BaseOuts(tab, x, lb.b) IN
-    IF lvl = "pipe" THEN PipeIn(IF lb.f THEN Forwarded(outs) ELSE outs, upm, x, lb.e)
-    ELSE (lb.n = "all" \/ (~lb.f /\ ~lb.e)) /\ FiltIn(outs, x)
-Deviation(lvl, tab, upm, x) ==
-    IF \E i \in DOMAIN Labels : Under(lvl, tab, upm, x, Labels[i])
-    THEN Labels[CHOOSE i \in DOMAIN Labels : Under(lvl, tab, upm, x, Labels[i])
-                                             /\ \A j \in 1..(i - 1) : ~Under(lvl, tab, upm, x, Labels[j])].n
-    ELSE ""
+    [L \in SUBSET Deviations, c \in BOOLEAN |->
+        IF c THEN OutcomesVerbatim(tab, mixed, x.h, x.qt, L) ELSE OutcomesL(tab, x.h, x.qt, L)]
+Under(lvl, bt, upm, x, S) ==
+    LET outs == bt[S \cap Deviations, "case" \in S] IN
+    IF lvl = "pipe" THEN PipeIn(IF "fwd" \in S THEN Forwarded(outs) ELSE outs, upm, x, "err" \in S)
+    ELSE "fwd" \notin S /\ "err" \notin S /\ FiltIn(outs, x)
+Explaining(lvl, bt, upm, x) == {S \in SUBSET AllDevs : Under(lvl, bt, upm, x, S)}
+Smallest(good) ==
+    IF good = {} THEN [found |-> FALSE, devs |-> {}]
+    ELSE [found |-> TRUE, devs |-> CHOOSE S \in good : \A T \in good : Cardinality(S) <= Cardinality(T)]
+Deviation(lvl, tab, upm, x) == Smallest(Explaining(lvl, BaseTable(tab, x), upm, x))
 
 RECURSIVE BadFrom(_, _, _)
 BadFrom(i, j, tab) ==
@@ -130,7 +124,7 @@ Init == l = 1 /\ bad = <<>> /\ cur = <<>>
 Next == /\ l <= Len(Trace)
         /\ LET r == After(l) IN
            /\ cur' = IF Trace[l].lvl = "hist" THEN r.tab ELSE cur
-           /\ bad' = bad \o (IF EditOK(l, r) THEN <<>> ELSE <<[l |-> l, q |-> 0, exp |-> {}, dev |-> ""]>>)
+           /\ bad' = bad \o (IF EditOK(l, r) THEN <<>> ELSE <<[l |-> l, q |-> 0, exp |-> {}, dev |-> [found |-> FALSE, devs |-> {}]]>>)
                          \o BadFrom(l, 1, r.tab)
         /\ l' = l + 1
         /\ (l' = Len(Trace) + 1 => PrintT(<<"@@V", ToJson([n |-> Len(Trace), bad |-> bad'])>>))
